@@ -1,7 +1,9 @@
 """
 C14 -- A* returns a valid, shortest path between the cells the caller named.
 
-Tie:  H  `lean/XrsVerif/Model/AStar.lean` is a hand model of pathfinding.py (after repairs D6, D7);
+Tie:  T  harness/facts_astar.py regenerates Gen/AStarFacts.lean (heuristic / step kernels, neighbour tables, relaxation
+         body, min-cost scan, barrier test, pixel rule, snap scan); Props/C14.lean proves them equal to the model's.
+      H  `lean/XrsVerif/Model/AStar.lean` is a hand model of pathfinding.py (after repairs D6, D7);
          the theorems of Props/C14.lean are about that model for every cost structure / every
          ordered field.  Here the public `a_star_search` (and the two helpers `_get_pixel_id`,
          `_find_nearest_pixel`) run on generated inputs and are compared with the compiled model:
@@ -1157,8 +1159,14 @@ def run(r, scale=1):
         "costs: theorems over exact arithmetic (any ordered field with s*s = 2); the float run is compared bit for bit with the model executed over IEEE doubles",
         "points are taken within half a cell of the axis extent (outside it the code mirrors about the first centre; not judged)",
         "regularly spaced, monotone coordinate axes; `res` attribute, when present, equals the spacing",
+        "cells up to 2^52 in magnitude (beyond 2^53 numba / NumPy compare mixed 64-bit integers and floats in float64: the "
+        "platform's ==, observed, not judged); barrier lists np.array holds exactly (no integer beyond 64 bits, no integer "
+        "above 2^53 next to a float)",
     ]
-    r.trusted += ["hand model Model/AStar.lean tied to pathfinding.py by the correspondence run only",
+    r.trusted += ["hand model Model/AStar.lean: heuristic, step length, neighbour tables, relaxation body, pop bookkeeping, "
+                  "min-cost scan, barrier / inside tests, pixel rule and snap scan are proved equal to definitions generated "
+                  "from the source (Gen/AStarFacts.lean); the while-loop skeleton, _reconstruct_path and the wrapper's step "
+                  "order are tied by the correspondence run only",
                   "Lean `Float` = IEEE binary64 as in numba (add, sqrt, compare)"]
 
 
